@@ -312,7 +312,12 @@ def _run_history(hist, rec):
                 # estimation: the estimates)
                 cur = b.get_beta_values()
                 got = float(b.calculate_init_likelihood())
-                want = ref_sum({nm: cur[nm] for nm in free})
+                try:
+                    want = ref_sum({nm: cur[nm] for nm in free})
+                except (R.OutOfDomain, R.Fragile):
+                    # the estimates of a run cut short may lie where the reference refuses to evaluate (exp overflow region)
+                    rec.count('history_initll_estimates_outside_the_reference_domain')
+                    continue
                 rec.case(key, (hist[:step + 1], round(got, 9)), outcome=('initll',))
                 if not close(got, want, 1e-9):
                     rec.violation('C04|init-likelihood-not-weighted-sum-at-current-values|history',
